@@ -495,6 +495,329 @@ def run_c12(seed, tier, log):
     return res
 
 
+
+# ----------------------------------------------------------------------------- suite S6: the front ends (C13)
+PFBIN = os.path.join(TARGET, 'release', 'pickle-fuzzer')
+PYPKG = os.path.join(BUILD, 'pypkg')
+
+
+def build_front_ends():
+    rc, out = sh('cargo build --offline --release --manifest-path %s --bin pickle-fuzzer' % os.path.join(REPO, 'Cargo.toml'), timeout=1800)
+    if rc != 0:
+        raise Infra('building the pickle-fuzzer binary failed:\n' + out[-2000:])
+    rc, out = sh('cargo build --offline --release --features python-bindings --lib --manifest-path %s' % os.path.join(REPO, 'Cargo.toml'), timeout=1800)
+    if rc != 0:
+        raise Infra('building the python extension failed:\n' + out[-2000:])
+    pk = os.path.join(PYPKG, 'pickle_fuzzer')
+    shutil.rmtree(PYPKG, ignore_errors=True)
+    os.makedirs(pk)
+    for f in os.listdir(os.path.join(REPO, 'python', 'pickle_fuzzer')):
+        if f.endswith('.py'):
+            shutil.copy(os.path.join(REPO, 'python', 'pickle_fuzzer', f), pk)
+    shutil.copy(os.path.join(TARGET, 'release', 'libpickle_fuzzer.so'), os.path.join(pk, '_native.so'))
+    # atheris is only imported by fuzzer.py; a stub serves when the interpreter lacks it
+    stub = os.path.join(PYPKG, 'stub')
+    os.makedirs(stub)
+    open(os.path.join(stub, 'atheris.py'), 'w').write('def instrument_func(f):\n    return f\ndef Setup(*a, **k):\n    pass\ndef Fuzz():\n    pass\n')
+
+
+def f64hex(x):
+    return '%016x' % struct.unpack('<Q', struct.pack('<d', x))[0]
+
+
+def gen_s6_vectors(seed, tier):
+    rng = SplitMix64(seed ^ 0x5606)
+    n = 70 if tier == 'quick' else 500
+    kinds = ['bitflip', 'boundary', 'offbyone', 'stringlen', 'character', 'memoindex', 'typeconfusion', 'all']
+    vecs = []
+    for i in range(n):
+        proto = rng.choice(['-', '-', '0', '1', '2', '3', '4', '5'])
+        sd = rng.choice([0, 1, 5, 6, 7, 11, 2**32 + 3, 2**64 - 1, rng.below(1 << 40)])
+        mn, mx = rng.choice([(None, None), (5, 9), (1, 1), (0, 0), (9, 4), (20, None), (None, 80), (100, 101)])
+        r = rng.below(8)
+        if r < 2:
+            muts = []
+        elif r < 4:
+            muts = [rng.choice(kinds)]
+        elif r < 5:
+            muts = ['all']
+        else:
+            muts = [k for k in kinds[:7] if rng.below(3) == 0] or ['bitflip']
+            if rng.below(6) == 0:
+                muts.insert(rng.below(len(muts) + 1), 'all')
+        rate = rng.choice([None, 0.1, 0.0, 1.0, 0.5, 2.5, -1.0, 0.25])
+        vecs.append(dict(id='f%d' % i, protocol=proto, seed=sd, min=mn, max=mx, mutators=muts, rate=rate,
+                         unsafe=int(rng.below(3) == 0), ext=int(rng.below(3) == 0), buf=int(rng.below(3) == 0)))
+    # every single flag on its own (a swapped or dropped flag must show)
+    k = n
+    for proto in ('5', '2'):
+        for (u, e, b) in ((1, 0, 0), (0, 1, 0), (0, 0, 1), (1, 1, 0), (0, 1, 1)):
+            for muts in ([], ['all'], ['memoindex', 'typeconfusion']):
+                vecs.append(dict(id='f%d' % k, protocol=proto, seed=100 + k, min=None, max=None, mutators=muts, rate=1.0 if muts else None,
+                                 unsafe=u, ext=e, buf=b))
+                k += 1
+    return vecs
+
+
+def vec_argv(v):
+    a = []
+    if v['protocol'] != '-':
+        a += ['--protocol', v['protocol']]
+    a += ['--seed', str(v['seed'])]
+    if v['min'] is not None:
+        a += ['--min-opcodes', str(v['min'])]
+    if v['max'] is not None:
+        a += ['--max-opcodes', str(v['max'])]
+    if v['mutators']:
+        a += ['--mutators'] + v['mutators']
+    if v['rate'] is not None:
+        a += ['--mutation-rate=%r' % v['rate']]
+    if v['unsafe']:
+        a.append('--unsafe-mutations')
+    if v['ext']:
+        a.append('--allow-ext')
+    if v['buf']:
+        a.append('--allow-buffer')
+    return a
+
+
+def vec_line(v):
+    return 'id=%s protocol=%s seed=%d min=%s max=%s mutators=%s rate=%s unsafe=%d ext=%d buf=%d' % (
+        v['id'], v['protocol'], v['seed'], '-' if v['min'] is None else v['min'], '-' if v['max'] is None else v['max'],
+        ','.join(v['mutators']) or '-', '-' if v['rate'] is None else f64hex(v['rate']), v['unsafe'], v['ext'], v['buf'])
+
+
+def vec_env(v, out_file=None, out_dir=None, samples=None):
+    e = {}
+    if v['protocol'] != '-':
+        e['INPUT_PROTOCOL'] = v['protocol']
+    e['INPUT_SEED'] = str(v['seed'])
+    if v['min'] is not None:
+        e['INPUT_MIN_OPCODES'] = str(v['min'])
+    if v['max'] is not None:
+        e['INPUT_MAX_OPCODES'] = str(v['max'])
+    if v['mutators']:
+        e['INPUT_MUTATORS'] = ', '.join(v['mutators'])
+    if v['rate'] is not None:
+        e['INPUT_MUTATION_RATE'] = repr(v['rate'])
+    e['INPUT_UNSAFE_MUTATIONS'] = 'true' if v['unsafe'] else 'false'
+    e['INPUT_ALLOW_EXT'] = 'yes' if v['ext'] else ''
+    e['INPUT_ALLOW_BUFFER'] = '1' if v['buf'] else '0'
+    if out_file:
+        e['INPUT_OUTPUT_FILE'] = out_file
+    if out_dir:
+        e['INPUT_OUTPUT_DIR'] = out_dir
+    if samples is not None:
+        e['INPUT_SAMPLES'] = str(samples)
+    return e
+
+
+def library_bytes(case_lines, mode='results'):
+    """id -> RESULT line of the library for harness case lines"""
+    d = os.path.join(BUILD, 's6tmp')
+    os.makedirs(d, exist_ok=True)
+    cp = os.path.join(d, 'lib_cases.txt')
+    open(cp, 'w').write('\n'.join(case_lines) + '\n')
+    p = subprocess.run([HBIN, mode, cp] + (['4'] if mode == 'results' else []), stdout=subprocess.PIPE, stderr=subprocess.PIPE, text=True, env=ENV, timeout=3000)
+    if p.returncode != 0:
+        raise Infra('harness %s failed: %s' % (mode, p.stderr[-1000:]))
+    return p.stdout
+
+
+def run_s6(seed, tier, log):
+    key = hashlib.sha256(('%s|%s|%d|%s|s6' % (repo_hash(), model_hash(), seed, tier)).encode()).hexdigest()[:24]
+    d = os.path.join(CACHE, key)
+    res_path = os.path.join(d, 's6.json')
+    if os.path.exists(res_path):
+        log('s6: cached result %s' % key)
+        return json.load(open(res_path))
+    t0 = time.time()
+    build_front_ends()
+    os.makedirs(d, exist_ok=True)
+    tmp = os.path.join(BUILD, 's6tmp')
+    shutil.rmtree(tmp, ignore_errors=True)
+    os.makedirs(tmp)
+    props, specs, nrun = [], {}, 0
+
+    def fail(cid, what, detail):
+        props.append({'id': cid, 'prop': 'C13', 'detail': detail})
+        specs[cid] = what
+    vecs = gen_s6_vectors(seed, tier)
+    vp = os.path.join(tmp, 'vectors.txt')
+    open(vp, 'w').write('\n'.join(vec_line(v) for v in vecs) + '\n')
+    p = subprocess.run([DRIVER, 'front', vp], stdout=subprocess.PIPE, stderr=subprocess.PIPE, text=True, env=ENV, timeout=600)
+    if p.returncode != 0:
+        raise Infra('driver front failed: ' + p.stderr[-1000:])
+    cases = [l for l in p.stdout.splitlines() if l.startswith('id=')]
+    expect = {}
+    cur = None
+    for l in library_bytes(cases).splitlines():
+        if l.startswith('CASE '):
+            cur = re.search(r'\bid=(\S+)', l).group(1)
+        elif l.startswith('RESULT ') and cur:
+            expect[cur] = bytes.fromhex(l.split()[2]) if l.startswith('RESULT ok') and l.split()[2] != '-' else None
+    envb = dict(os.environ, PATH=os.path.dirname(PFBIN) + ':' + os.environ.get('PATH', ''))
+    # 1. single-file mode
+    for v in vecs:
+        out = os.path.join(tmp, v['id'] + '.pkl')
+        argv = [PFBIN] + vec_argv(v) + [out]
+        q = subprocess.run(argv, stdout=subprocess.PIPE, stderr=subprocess.PIPE, timeout=300)
+        nrun += 1
+        what = 'cli single: pickle-fuzzer ' + ' '.join(vec_argv(v)) + ' FILE'
+        if q.returncode != 0 or not os.path.exists(out):
+            fail(v['id'], what, 'exit status %d: %s' % (q.returncode, q.stderr.decode()[-200:]))
+            continue
+        got = open(out, 'rb').read()
+        if expect.get(v['id']) is None:
+            fail(v['id'], what, 'the library call for the configuration computed by the model did not return a pickle')
+        elif got != expect[v['id']]:
+            fail(v['id'], what, 'file bytes differ from the library bytes for the corresponding configuration (file %s..., library %s...)' % (
+                got[:24].hex(), expect[v['id']][:24].hex()))
+    # 2. batch mode, three worker counts; 3. failure contract
+    for j, v in enumerate(vecs[:: max(1, len(vecs) // (12 if tier == 'quick' else 60))]):
+        for threads, samples in ((1, 3), (3, 7), (16, 5)):
+            dd = os.path.join(tmp, 'batch_%s_%d' % (v['id'], threads))
+            argv = [PFBIN, '--dir', dd, '--samples', str(samples)] + vec_argv(v)
+            q = subprocess.run(argv, stdout=subprocess.PIPE, stderr=subprocess.PIPE, timeout=300, env=dict(envb, RAYON_NUM_THREADS=str(threads)))
+            nrun += 1
+            what = 'cli batch (RAYON_NUM_THREADS=%d): pickle-fuzzer --dir D --samples %d %s' % (threads, samples, ' '.join(vec_argv(v)))
+            files = sorted(os.listdir(dd)) if os.path.isdir(dd) else []
+            want = sorted('%d.pkl' % i for i in range(samples))
+            if q.returncode != 0:
+                fail(v['id'] + '-batch', what, 'exit status %d' % q.returncode)
+            elif files != want:
+                fail(v['id'] + '-batch', what, 'files written: %s, expected %s' % (files, want))
+            else:
+                for f in files:
+                    if open(os.path.join(dd, f), 'rb').read() != expect.get(v['id']):
+                        fail(v['id'] + '-batch', what, 'file %s differs from the library bytes' % f)
+                        break
+            shutil.rmtree(dd, ignore_errors=True)
+        if j % 3 == 0:
+            dd = os.path.join(tmp, 'fail_%s' % v['id'])
+            os.makedirs(os.path.join(dd, '1.pkl'))           # a directory where a file should be written
+            q = subprocess.run([PFBIN, '--dir', dd, '--samples', '4'] + vec_argv(v), stdout=subprocess.PIPE, stderr=subprocess.PIPE, timeout=300, env=envb)
+            nrun += 1
+            what = 'cli batch with an unwritable 1.pkl: pickle-fuzzer --dir D --samples 4 ' + ' '.join(vec_argv(v))
+            others = [f for f in ('0.pkl', '2.pkl', '3.pkl') if os.path.isfile(os.path.join(dd, f)) and open(os.path.join(dd, f), 'rb').read() == expect.get(v['id'])]
+            if q.returncode == 0:
+                fail(v['id'] + '-fail', what, 'exit status 0 although one of the files could not be written')
+            elif len(others) != 3:
+                fail(v['id'] + '-fail', what, 'only %s of the other files were written with the library bytes' % others)
+            shutil.rmtree(dd, ignore_errors=True)
+    # 4. the action wrapper
+    script = os.path.join(REPO, 'scripts', 'action-run.sh')
+    for v in vecs[:: max(1, len(vecs) // (15 if tier == 'quick' else 80))]:
+        out = os.path.join(tmp, 'act_%s.pkl' % v['id'])
+        q = subprocess.run(['bash', script], stdout=subprocess.PIPE, stderr=subprocess.PIPE, timeout=300,
+                           env=dict({k: x for k, x in envb.items() if not k.startswith('INPUT_')}, **vec_env(v, out_file=out)))
+        nrun += 1
+        what = 'action-run.sh with ' + ' '.join('%s=%s' % kv for kv in sorted(vec_env(v, out_file='FILE').items()))
+        if q.returncode != 0 or not os.path.exists(out):
+            fail(v['id'] + '-action', what, 'exit status %d: %s' % (q.returncode, q.stderr.decode()[-200:]))
+        elif open(out, 'rb').read() != expect.get(v['id']):
+            fail(v['id'] + '-action', what, 'file bytes differ from the library bytes')
+        dd = os.path.join(tmp, 'actd_%s' % v['id'])
+        q = subprocess.run(['bash', script], stdout=subprocess.PIPE, stderr=subprocess.PIPE, timeout=300,
+                           env=dict({k: x for k, x in envb.items() if not k.startswith('INPUT_')}, **vec_env(v, out_dir=dd, samples=2)))
+        nrun += 1
+        files = sorted(os.listdir(dd)) if os.path.isdir(dd) else []
+        if q.returncode != 0 or files != ['0.pkl', '1.pkl'] or any(open(os.path.join(dd, f), 'rb').read() != expect.get(v['id']) for f in files):
+            fail(v['id'] + '-action-dir', what.replace('FILE', 'DIR'), 'exit %d, files %s (or contents differ from the library)' % (q.returncode, files))
+        shutil.rmtree(dd, ignore_errors=True)
+    v = vecs[0]
+    base = {k: x for k, x in envb.items() if not k.startswith('INPUT_')}
+    q = subprocess.run(['bash', script], stdout=subprocess.PIPE, stderr=subprocess.PIPE, env=dict(base, INPUT_OUTPUT_DIR=os.path.join(tmp, 'x'), INPUT_OUTPUT_FILE=os.path.join(tmp, 'x.pkl')))
+    if q.returncode != 1:
+        fail('action-both', 'action-run.sh with both output_dir and output_file', 'exit status %d, expected 1' % q.returncode)
+    raw = os.path.join(tmp, 'raw.pkl')
+    q = subprocess.run(['bash', script], stdout=subprocess.PIPE, stderr=subprocess.PIPE, env=dict(base, INPUT_ARGS=' '.join(vec_argv(v)) + ' ' + raw))
+    nrun += 2
+    if q.returncode != 0 or not os.path.exists(raw) or open(raw, 'rb').read() != expect.get(v['id']):
+        fail('action-args', 'action-run.sh with INPUT_ARGS=' + ' '.join(vec_argv(v)) + ' FILE', 'exit %d or bytes differ from the library' % q.returncode)
+    # 5. the Python extension module and PickleMutator: call sequences on one object = histories on one Generator
+    rng = SplitMix64(seed ^ 0x9713)
+    seqs, hist_cases = [], []
+    for i in range(40 if tier == 'quick' else 300):
+        proto = rng.below(6)
+        sd = rng.choice([0, 7, 123456789, 2**64 - 1, rng.below(1 << 32)])
+        rangeset = rng.choice([None, (5, 9), (3, 3), (9, 4), (0, 0), (100, 101)])
+        calls = []
+        for _ in range(1 + rng.below(4)):
+            r = rng.below(4)
+            calls.append(('g',) if r == 0 else ('b', rand_bytes(rng, 24).hex()) if r < 3 else ('m', rand_bytes(rng, 24).hex(), rng.choice([0, 1, 5, 20, 10000])))
+        seqs.append(dict(id='y%d' % i, protocol=proto, seed=sd, range=rangeset, calls=calls, setter_at=rng.below(2)))
+        mn, mx = rangeset if rangeset else (60, 300)
+        hist = ';'.join('s:%d' % sd if c[0] == 'g' else 'b:' + (c[1] or '-') for c in calls)
+        # with setter_at = 1 the first call runs with the default range: two histories on fresh generators are not comparable,
+        # so the setter is always applied before the first generation call; setter_at only selects constructor-vs-later timing
+        hist_cases.append('%s hist=%s' % (spec('y%d' % i, proto, mn, mx, RATES['0.1'], 0, 0, 0, [], 'none'), hist))
+    exp_h, cur = {}, None
+    for l in library_bytes(hist_cases, 'hist').splitlines():
+        if l.startswith('CASE '):
+            cur = re.search(r'\bid=(\S+)', l).group(1)
+            exp_h[cur] = []
+        elif l.startswith('H ') and cur:
+            w = l.split()
+            exp_h[cur].append(bytes.fromhex(w[4]) if w[2] == 'RESULT' and w[3] == 'ok' and w[4] != '-' else b'')
+    py = 'python3-vt' if shutil.which('python3-vt') else 'python3'
+    prog = os.path.join(tmp, 'pyseq.py')
+    open(prog, 'w').write("""import sys, json
+try:
+    import atheris
+except ImportError:
+    sys.path.append(%r)
+sys.path.insert(0, %r)
+import pickle_fuzzer
+from pickle_fuzzer.fuzzer import PickleMutator
+out = {}
+for s in json.load(open(sys.argv[1])):
+    use_mut = any(c[0] == 'm' for c in s['calls'])
+    if use_mut:
+        pm = PickleMutator(protocol=s['protocol'], seed=s['seed'])
+        g = pm.generator
+    else:
+        g = pickle_fuzzer.Generator(protocol=s['protocol'], seed=s['seed']) if s['seed'] is not None else pickle_fuzzer.Generator(s['protocol'])
+    if s['range']:
+        g.set_opcode_range(*s['range'])
+    res = []
+    for c in s['calls']:
+        if c[0] == 'g':
+            res.append(g.generate().hex())
+        elif c[0] == 'b':
+            res.append(g.generate_from_bytes(bytes.fromhex(c[1])).hex())
+        else:
+            res.append(pm.mutate(bytes.fromhex(c[1]), c[2]).hex())
+    out[s['id']] = res
+json.dump(out, sys.stdout)
+""" % (os.path.join(PYPKG, 'stub'), PYPKG))
+    sp = os.path.join(tmp, 'seqs.json')
+    json.dump(seqs, open(sp, 'w'))
+    q = subprocess.run([py, prog, sp], stdout=subprocess.PIPE, stderr=subprocess.PIPE, text=True, timeout=600)
+    if q.returncode != 0:
+        fail('python', 'python call sequences', 'the python driver failed: ' + q.stderr[-400:])
+    else:
+        got = json.loads(q.stdout)
+        for sq in seqs:
+            nrun += 1
+            what = 'python: Generator(protocol=%d, seed=%d)%s; %s' % (
+                sq['protocol'], sq['seed'], '; set_opcode_range%s' % (tuple(sq['range']),) if sq['range'] else '',
+                '; '.join('generate()' if c[0] == 'g' else 'generate_from_bytes(%s)' % c[1] if c[0] == 'b' else 'PickleMutator.mutate(%s, %d)' % (c[1], c[2]) for c in sq['calls']))
+            for k_, c in enumerate(sq['calls']):
+                e = exp_h.get(sq['id'], [])[k_] if k_ < len(exp_h.get(sq['id'], [])) else None
+                if c[0] == 'm' and e is not None:
+                    e = e[:c[2]]
+                if e is None or bytes.fromhex(got[sq['id']][k_]) != e:
+                    fail(sq['id'], what, 'call %d returns %s..., the library %s...' % (k_, got[sq['id']][k_][:32], (e or b'').hex()[:32]))
+                    break
+    shutil.rmtree(tmp, ignore_errors=True)
+    res = dict(ok=[], diffs=[], props=props, stats={}, ncases=nrun, okn=nrun - len(props), nops=nrun, specs=specs,
+               samples=['pickle-fuzzer ' + ' '.join(vec_argv(vecs[0])) + ' FILE', 'pickle-fuzzer ' + ' '.join(vec_argv(vecs[1])) + ' FILE'])
+    json.dump(res, open(res_path, 'w'))
+    log('s6: %d front-end executions (cli single/batch, action wrapper, python), %d differ from the library, %.1fs' % (nrun, len(props), time.time() - t0))
+    return res
+
+
 KNOWN_DEEP = dict(v=2, n=40000, stack_kb=2048)
 
 
